@@ -124,6 +124,7 @@ class C05(runner.Check):
         add("precomputed-equiv", k=1, kernel="linear", cost=5)
         add("center-equiv", k=1, center=True, cost=8)
         add("regressors", k=1, cost=5)
+        add("refit-center", k=1, center=True, reg="precomputed", cost=10)  # history: fit with center=True, set_params(center=False), fit again
         if tier == "thorough":
             add("precomputed-equiv", k=1, kernel="poly", V="I", cost=60)
             for hv in (1, 3, 4, 5):
@@ -262,6 +263,14 @@ class C05(runner.Check):
             ep.fit(Kc, Yfit)
             P.require_all(cols_equal_up_to_sign(est.transform(Xv), ep.transform(Kvc)) + sc.arr_eq(est.predict(Xv), ep.predict(Kvc)), "center=True==explicit-KernelNormalizer")
             return {"k": k}
+        if mode == "refit-center":
+            est.set_params(center=False)
+            est.fit(X, Yfit)
+            fresh = self._kp(cfg, a, alpha, center=False)
+            fresh.fit(X, Yfit)
+            P.require_all(cols_equal_up_to_sign(est.transform(Xv), fresh.transform(Xv)) + sc.arr_eq(est.predict(Xv), fresh.predict(Xv)),
+                          "refit-after-center-switched-off==fresh-estimator")
+            return {"k": k}
         if mode == "regressors":
             # None / unfitted / fitted kernel ridge give the documented Yhat and W; precomputed uses Y as Yhat
             KNN = K_of(X, X)
@@ -320,6 +329,13 @@ class C05(runner.Check):
                 lr = np.linalg.norm(Yv - Yp) ** 2 / np.linalg.norm(Yv) ** 2
                 if abs(sv + lk + lr) > 1e-6 * max(1.0, abs(lk + lr)):
                     viol.append(("score==-(documented kernel loss + relative regression loss)", {"score": float(sv), "documented": float(-(lk + lr))}))
+            elif mode == "refit-center":
+                est.set_params(center=False)
+                est.fit(X, Yfit)
+                fresh = self._kp(cfg, a, alpha, center=False, sym=False)
+                fresh.fit(X, Yfit)
+                if not sclose(est.transform(Xv), fresh.transform(Xv)) or not close(est.predict(Xv), fresh.predict(Xv)):
+                    viol.append(("refit-after-center-switched-off==fresh-estimator", float(np.abs(est.predict(Xv) - fresh.predict(Xv)).max())))
             elif mode == "pcovr-equiv":
                 pr = PCovR(mixing=a, n_components=k, space="sample", svd_solver="full", regressor=Ridge(alpha=alpha, fit_intercept=False, tol=1e-12), tol=1e-12).fit(X, Y)
                 full = PCovR(mixing=a, n_components=min(n, m), space="sample", svd_solver="full", regressor=Ridge(alpha=alpha, fit_intercept=False, tol=1e-12), tol=1e-12).fit(X, Y)
